@@ -52,8 +52,9 @@ TOL9 = "1/1000000000"
 TOL6 = "1/1000000"
 ATYPES = [("P", 0.47, 72.0), ("Q", 0.41, 36.0), ("S", 0.34, 12.0)]
 BOND_LENGTHS = [0.2, 0.25, 0.3, 0.35, 0.47]
-FINDING_SHAPES = ("vsn-com-as-cog", "user-volume-lost-other-hash", "template-without-bonds-ignored",
-                  "unoptimised-first-template-crashes")
+FINDING_SHAPES = ("vsn-com-as-cog", "template-without-bonds-ignored")
+# fixed in /repo (see known_findings.txt `fixed:`), therefore always generated:
+#   unoptimised-first-template-crashes (be7ff96), user-volume-lost-other-hash (07473a8)
 
 
 _OVERRIDE = None      # set while a case with a recorded "probe" list is (re)generated
@@ -95,12 +96,9 @@ def vec_close(impl, model, tol=1e-9):
 
 def gen_kind(rng, resname, prefix, vs_ok=True):
     """one residue definition: atoms, bonded terms, virtual sites (all indices local, 0-based)"""
-    shapes = ["single", "chain", "chain", "ring", "branched", "star"]
-    if enabled("unoptimised-first-template-crashes"):
-        # a residue that cannot be optimised makes gen_templates raise when it is the first one generated for
-        # a molecule (documented finding, gated)
-        shapes.append("infeasible")
-    shape = rng.choice(shapes)
+    # "infeasible": a residue that cannot be optimised (gen_templates must proceed with unoptimised coordinates;
+    # it raised UnboundLocalError before fix be7ff96)
+    shape = rng.choice(["single", "chain", "chain", "ring", "branched", "star", "infeasible"])
     atoms, bonds, constraints, angles, impropers = [], [], [], [], []
 
     def add_atom(name):
@@ -241,19 +239,8 @@ def gen_build_file(rng, spec):
         roll = rng.random()
         want_vol = roll < 0.45
         want_tmpl = 0.3 < roll < 0.75
-        if len(same_name) > 1:
-            # a [ volumes ] entry addresses every kind of that name; a [ template ] next to it would re-key it
-            # to one hash only (documented finding, gated)
-            if want_vol and want_tmpl and not enabled("user-volume-lost-other-hash"):
-                want_tmpl = False
-            if any(b[0] == "volume" and b[1] == kind["resname"] for b in blocks):
-                want_vol = False
-            if any(b[0] == "template" and kinds[b[1]]["resname"] == kind["resname"] for b in blocks) \
-                    and not enabled("user-volume-lost-other-hash"):
-                want_vol = False
-            if want_tmpl and any(b[0] == "volume" and b[1] == kind["resname"] for b in blocks) \
-                    and not enabled("user-volume-lost-other-hash"):
-                want_tmpl = False
+        if len(same_name) > 1 and any(b[0] == "volume" and b[1] == kind["resname"] for b in blocks):
+            want_vol = False      # one [ volumes ] line per residue name (it addresses every kind of that name)
         mine = []
         if want_vol:
             mine.append(["volume", kind["resname"], round(rng.uniform(0.2, 1.5), 3)])
